@@ -1121,3 +1121,68 @@ def ob_new_fields(run, oid, prefixes, why, skip_owners=()):
                     o.ok(key + "|new-write-only-field", "new field, only updated / used by new code", r["span"], nontrivial=False)
     o.ok("types-examined", "%d reviewed types under %s examined" % (n, ", ".join(prefixes)), "", nontrivial=n > 0)
     return o
+
+
+def closure_compares_capture(prog, term, wanted):
+    """`term` contains a closure (e.g. the argument of is_some_and / any / filter) whose body compares (eq / ne) something with one of its
+    captures, and that capture's value in the enclosing body satisfies `wanted(term)`"""
+    for cl in [x for x in mir.walk(term) if isinstance(x, tuple) and x and x[0] == "closure"]:
+        caps = [nm for nm, ot in cl[2] if wanted(ot)]
+        if not caps:
+            continue
+        for fb in prog.family(cl[1]):
+            for c in fb.calls():
+                if c.name.rsplit("::", 1)[-1] in ("eq", "ne") and any(K.mentions(fb.operand_term(a), lambda x: x[0] == "upvar" and x[1] in caps) for a in c.args):
+                    return True
+            for bb, i, dst, rv, sp in fb.assignments():
+                if rv["k"] == "bin" and rv.get("op") in ("Eq", "Ne") and any(K.mentions(fb.operand_term(rv[k_]), lambda x: x[0] == "upvar" and x[1] in caps) for k_ in ("a", "b")):
+                    return True
+    return False
+
+
+def guarded_on_every_path(prog, b, bb, pred):
+    """every path from the entry to block `bb` takes a switch edge on which an atom satisfying `pred` holds (works for blocks reached by
+    several arms that were merged, where no single condition dominates)"""
+    es = b.edges()
+    removed = []
+    for (s_, _dt, _ty) in b.switches():
+        for v, atoms in G.switch_atoms(b, s_, prog).items():
+            if any(pred(a) for a in atoms):
+                removed += [i for i, e in enumerate(es) if e[0] == s_ and e[2] == ("sw", v)]
+    return bool(removed) and bb not in b.reachable(0, removed_edges=removed)
+
+
+def closure_is_threshold(prog, cb, is_elem, is_bound):
+    """the predicate closure `cb` (of retain / filter / take_while) keeps an element exactly when elem >= bound: every row of its decision
+    table is unconditional and evaluates to [False, True, True] for elem below / at / above the bound. -> list of problems"""
+    from engine import paths
+
+    def val(x, ev, bv):
+        x = K.peel(x)
+        if isinstance(x, tuple) and x and x[0] == "un" and str(x[1]) == "Not":
+            v = val(x[2], ev, bv)
+            return None if v is None else (not v)
+        if isinstance(x, tuple) and x and x[0] == "const" and x[2] in (0, 1):
+            return bool(x[2])
+        if isinstance(x, tuple) and x and ((x[0] == "call" and len(x[2]) == 2) or x[0] == "bin"):
+            op = x[1].rsplit("::", 1)[-1].lower()
+            a0, a1 = (x[2][0], x[2][1]) if x[0] == "call" else (x[2], x[3])
+            n0 = ev if is_elem(a0) else (bv if is_bound(a0) else None)
+            n1 = ev if is_elem(a1) else (bv if is_bound(a1) else None)
+            if n0 is None or n1 is None or op not in ("ge", "le", "gt", "lt", "eq", "ne"):
+                return None
+            return {"ge": n0 >= n1, "le": n0 <= n1, "gt": n0 > n1, "lt": n0 < n1, "eq": n0 == n1, "ne": n0 != n1}[op]
+        return None
+    bad = []
+    rows = [r for r in paths.decision_table(cb, prog) if r[1] is not None]
+    if not rows:
+        return ["no result"]
+    for atoms, ret, _bl in rows:
+        other = [a for a in atoms if not is_structural_atom(a)]
+        if other:
+            bad.append("depends on %s" % G.atoms_show(other)[:2])
+            continue
+        vs = [val(ret, e, 5) for e in (4, 5, 6)]
+        if vs != [False, True, True]:
+            bad.append("keeps when %s (below / at / above the bound: %s)" % (mir.show(K.peel(ret))[:70], vs))
+    return bad
